@@ -286,7 +286,7 @@ def _sort_by_colour_shape(fs):
     if len(ptr) != 1 or ptr[0].target != ex("IP[I + 1]", ptr[0].node.lineno) or ptr[0].value != CNT or ptr[0].node.lineno < ln:
         return False, "indexptr[colour + 1] is not the counter after the colour's elements were added"
     init = [st for st in fs.body if isinstance(st, ast.Assign) and unparse(st.targets[0]) == CNT and isinstance(st.value, ast.Constant) and st.value.value == 0 and st.lineno < lp.lineno]
-    ipdef = defs.lookup(IP, lp.lineno)
+    ipdef = defs.alloc(IP, lp.lineno)
     if not init:
         return False, "the counter does not start at 0"
     if not (ipdef is not None and ipdef[0] == "expr" and isinstance(ipdef[1], ast.Call) and unparse(ipdef[1].func).endswith(".zeros")):
@@ -476,7 +476,7 @@ def _alias_idiom(fn, pos):
         else:
             return "!`%s` writes a dof that neither has a non-zero multiplier nor is taken from row `%s` of the same map" % (unparse(s.node)[:70], e)
     for buf, (e, rs) in rows.items():
-        alloc = defs.lookup(buf, rs.node.lineno)
+        alloc = defs.alloc(buf, rs.node.lineno)
         if not (alloc and alloc[0] == "expr" and rs.loops and alloc[1].lineno > rs.loops[-1].lineno):
             return "!row buffer `%s` is not allocated per element" % buf
         for s in S:
